@@ -256,10 +256,10 @@ class EscapePolicy(InlineOnly):
         if uc is not None:
             fm, buf = uc
             lf = LenFacts(eng, s.conds)
-            if ev.attrname == "unpack_from" or (ev.ext or "").endswith("unpack_from"):
+            if (ev.ext or "").endswith("unpack_from"):
                 ok = lf.at_least(buf, fm.size)
             else:
-                ok = lf.exactly(buf, fm.size)
+                ok = lf.exactly(buf, fm.size)  # (Struct.unpack_from arrives here as unpack of the slice it reads)
             if ok:
                 return []
             o.note_site("struct.error", ev)
